@@ -84,7 +84,9 @@ def st_idiom(draw, allow_load_q=False):
             return [f"set {ra} {q}", f"{draw(st.sampled_from(GATES1))} {ra}"]
         if k <= 5:
             q = draw(st.integers(0, nq - 1))
-            return [f"set {ra} {q}", f"rot_{draw(st.sampled_from('xyz'))} {ra} {draw(st.integers(0, 31))} {draw(st.integers(0, 5))}"]
+            # (numerators up to the 8-bit limit, steps down to pi/256: what the SDK emits for an arbitrary angle)
+            n_, d_ = draw(st.sampled_from([(draw(st.integers(0, 31)), draw(st.integers(0, 5))), (draw(st.integers(0, 255)), draw(st.integers(0, 8)))]))
+            return [f"set {ra} {q}", f"rot_{draw(st.sampled_from('xyz'))} {ra} {n_} {d_}"]
         if k <= 7 and nq >= 2:
             a = draw(st.integers(0, nq - 1))
             b = draw(st.sampled_from([x for x in range(nq) if x != a]))
@@ -166,8 +168,13 @@ def st_idiom(draw, allow_load_q=False):
                         else:
                             pre = pre + ccgate  # the gate runs in any case; only the later `set` is conditional
                         if draw(st.booleans()):
-                            inside = inside + [f"set {rp} {draw(st.integers(0, nq - 1))}"]
+                            # (often the electron's id: a register that "holds 0" only if this body ran)
+                            inside = inside + [f"set {rp} {0 if draw(st.booleans()) else draw(st.integers(0, nq - 1))}"]
                         post = [f"{draw(st.sampled_from(GATES1))} {rp}"]
+                        if draw(st.booleans()):
+                            # another carbon-carbon gate after the conditional, before the kept register is read
+                            x2, y2 = draw(st.sampled_from([(1, 2), (2, 1)]))
+                            post = [f"set {others_r[0]} {x2}", f"set {others_r[1]} {y2}", f"{draw(st.sampled_from(['cnot', 'cphase']))} {others_r[0]} {others_r[1]}"] + post
                         info["cc"] = True
                         info["kept_across_if"] = True
                 body_if = None
@@ -239,6 +246,26 @@ def st_idiom(draw, allow_load_q=False):
         info["cc"] = True
         info["ifs"] += 1
         info["label_on_two_qubit_gate"] = True
+    elif nq >= 3 and len(qregs) >= 3 and draw(st.integers(0, 9)) == 0:
+        # a register names a carbon before a conditional; the (mostly skipped) body points it at the electron; after the
+        # conditional comes a carbon-carbon gate on two other registers, then the first register is read without being set again
+        ra_, rb_, rp_ = qregs[0], qregs[1], qregs[2]
+        if QL != "Q0" and draw(st.booleans()):
+            rp_ = "Q0"
+        x, y = draw(st.sampled_from([(1, 2), (2, 1)]))
+        cell = draw(st.integers(0, 5))
+        lab = new_label("IF_EXIT")
+        taken = draw(st.integers(0, 3)) > 0
+        body = []
+        for q_ in range(nq):
+            body += [f"set {ra_} {q_}", f"h {ra_}", f"t {ra_}"]
+        body += [f"set {rp_} {draw(st.integers(1, nq - 1))}", f"load R1 @0[{cell}]", f"{'beq' if taken else 'bne'} R1 {stored[cell]} {lab}",
+                 f"set {rp_} 0", f"{draw(st.sampled_from(GATES1))} {rp_}", f"{lab}:",
+                 f"set {ra_} {x}", f"set {rb_} {y}", f"{draw(st.sampled_from(['cnot', 'cphase']))} {ra_} {rb_}", f"{draw(st.sampled_from(['h', 'x', 'y', 't', 'k']))} {rp_}"]
+        info["cc"] = True
+        info["ifs"] += 1
+        info["kept_across_if"] = True
+        info["electron_id_only_in_skipped_body"] = True
     elif stress:
         # many carbon-carbon gates in one subroutine
         body = []
@@ -431,7 +458,7 @@ def shard(ctx: Ctx) -> None:
             return
         i = case["info"]
         nt = i["cc"] or i["end_label"] or i["ifs"] > 0
-        labels = ["idiom", f"nq:{case['nq']}", "debug" if case["debug"] else "nodebug"] + [k for k in ("cc", "end_label", "stress", "label_at_0", "load_single", "full16", "sdk_mov", "same_index_classical_set", "realloc", "kept_across_if", "kept_across_loop", "label_on_two_qubit_gate") if i.get(k)] + (["loop"] if i["loops"] else []) + (["if"] if i["ifs"] else [])
+        labels = ["idiom", f"nq:{case['nq']}", "debug" if case["debug"] else "nodebug"] + [k for k in ("cc", "end_label", "stress", "label_at_0", "load_single", "full16", "sdk_mov", "same_index_classical_set", "realloc", "kept_across_if", "kept_across_loop", "label_on_two_qubit_gate", "electron_id_only_in_skipped_body") if i.get(k)] + (["loop"] if i["loops"] else []) + (["if"] if i["ifs"] else [])
         stt.case(str(case.get("prologue")) + case["text"] + str(case["outcomes"]) + str(case["debug"]), nt, labels, sample={"text": case["text"], "debug": case["debug"]} if len(case["text"]) < 700 else None)
 
     allow = KF_LOAD not in ctx.open_findings
